@@ -147,9 +147,11 @@ func (p proxyHandler) handleUpgradeResponse(rw http.ResponseWriter, req *http.Re
 
 	uconn, ok := res.Body.(io.ReadWriteCloser)
 	if !ok {
-		log.Error(ctx, "upgrade tunnel: internal error: switching protocols response with non-ReadWriteCloser body", "type", resUpType)
-		p.traceWroteResponse(res, errors.New("switching protocols response with non-writable body"))
-		panic(http.ErrAbortHandler)
+		// A 101 that switches to no protocol (no Upgrade field) comes with an ordinary body:
+		// nothing was sent to the client yet, answer it like any other malformed upstream reply.
+		log.Error(ctx, "upgrade tunnel: switching protocols response with non-ReadWriteCloser body", "type", resUpType)
+		p.writeErrorResponse(rw, req, errors.New("switching protocols response with non-writable body"))
+		return
 	}
 	res.Body = panicBody
 
